@@ -58,6 +58,18 @@ CHECKS = {
     technique="exhaustive enumeration of expression trees on each backend's own linear-combination class, linear form compared with the field expression, operands re-inspected after every operation",
     text="All expression trees of depth <= 2 over leaves zero/one/v1/v2/shared objects with + - neg and scaling by 0,1,-1,2,p-1,p,p+1,-(p+2),2^300 (evaluated on 16 assignments over {0,1,2,p-1}^2), and every unary / leaf-binary operator on the depth-2 trees, on snarkjs, the three zkinterface variants, qaptools' Sig and the recorder (control): each node's linear form mod p equals the field expression and no operand (incl. the shared one()) is altered. get_modulus() equals the tabulated scalar-field order and passes a harness-side Baillie-PSW test; fieldinverse(a)*a = 1 mod p for 30 arguments (negative, unreduced, huge) and raises for a = 0 mod p.",
     note="libsnark's class is implemented in an absent C++ extension and nobackend is a documented no-op; both are excluded."),
+ "C14": dict(cat="model_checking", design="3/C14",
+    technique="exhaustive enumeration of fixed-point programs (operators x ordered operand-kind pairs x all representable values of a small interval x resolutions x bitlengths) on the real code, differential against a Fraction reference",
+    text="13 binary operators and 6 assertions x every ordered pair of operand kinds over {fixed-point secret, integer secret, boolean secret, int, float} with at least one fixed-point operand x ALL multiples of 2^-r in [-2-2^-r, 2+2^-r] (thorough: [-4,4]) x resolutions 0..3 x two bitlengths x three fields: the result's representation integer equals exact scaled-integer arithmetic (floor(a*b/2^r), floor(a*2^r/b), Python // and % on the represented numbers, order for comparisons) or the call raises; neg/pos/val()/constructors/assert_range; plus the C01/C04 invariants at every step.",
+    note="** , << , >> and abs are not in the statement's list and are only covered by the completeness/value-wire invariants. Reference: fractions.Fraction."),
+ "C15": dict(cat="model_checking", design="3/C15",
+    technique="breadth-first search over array access histories on the real code with state de-duplication, compared with a Python list model after every event; witness-space enumeration for uniqueness",
+    text="Arrays 1-D length 1..4 and 2-D 2x2/2x3 with constant / secret / mixed contents; events read and write (constant or secret value) at every index of [-1, len] with secret and public indices (all four combinations for 2-D); all histories to depth 3 (thorough 4; 2-D 2/3) pruned on canonical contents: read values and contents equal the list model, out-of-range raises IndexError, recorder satisfied, value==wire; one canonical trace per history shape over all in-range index tuples; (exact engine) with contents and index pinned the read result and every element after a write are unique, and with error checking off an out-of-range index is unsatisfiable.",
+    note="Merging states with equal contents and element types is sound because the library's array operations read only values, types and lengths."),
+ "C16": dict(cat="model_checking", design="3/C16",
+    technique="exhaustive enumeration of widths x bitlengths x values and of packer schemas x all schema values on the real code, plus witness-space enumeration of the enforced width",
+    text="to_bits(w)/from_bits round trip, assert_positive(w), check_positive(w) for every width 1..6 with global bitlength 3/4/6 on every value of [-2, 2^w+1]; with error checking off and all witness choices enumerated the system is satisfiable exactly for 0 <= v < 2^w (check_positive: result forced to the sign). Packing: every schema of the grammar Bool | IntMod(1..5) | List(0..2 items) | Repeat(s, 0..2) to depth 1 (quick) / 2 (thorough) x ALL values x {plain, integer-typed secret, boolean-typed secret}: unpack(pack(v)) == v, bitlen() == number of bits, out-of-range plain values rejected.",
+    note="Schemas with more than 64 values are not enumerated."),
 }
 
 NOT_YET = {}
